@@ -2,7 +2,7 @@
    case; memory stream broker).  Property theorems only; proofs live in
    Proofs/Recover.v. *)
 From Coq Require Import List NArith ZArith Bool.
-From Cfg Require Import Model.MemStream Model.StreamSpec Model.HistoryCmd Model.Recover
+From Cfg Require Import Model.MemStream Model.StreamSpec Model.Merge Model.HistoryCmd Model.Recover
      Proofs.MemStream Proofs.Recover Harness.C03.
 Import ListNotations.
 Open Scope N_scope.
@@ -70,6 +70,72 @@ Theorem C03_at_most_one : forall lim uf filt hnd h ch off ep meta race,
   (length (res_pubs (snd (sub_cache lim uf filt hnd h ch off ep meta race))) <= 1)%nat.
 Proof. exact cache_at_most_one. Qed.
 Print Assumptions C03_at_most_one.
+
+(* ---- the same over ARBITRARY cache-empty handler scripts (incl. handlers that
+   populate the channel with several publications, visible or filtered) and
+   ARBITRARY publications racing the subscribe ---- *)
+
+(* The reply is always [finish] (merge with the PUB/SUB buffer, keep the last)
+   applied to the decision table of C03_decision for ONE cache read of a
+   reachable broker state [ct_read t]: the state before the subscribe, or the
+   state after the raced and the handler's publications when the handler
+   populated an empty cache and the first attempt had not recovered. *)
+Theorem C03_decision_general : forall lim uf filt hnd h ch s off ep meta race,
+  reachable h -> h_streams h ch = Some s ->
+  exists t sr,
+    sub_cache_tr lim uf filt hnd h ch off ep meta race = Some t /\
+    snd (sub_cache lim uf filt hnd h ch off ep meta race) =
+      finish true (ct_rc t) (map (to_pub (fun _ => false)) (ct_pubs t)) (ct_buf t)
+             (s_top sr) (s_epoch sr) off /\
+    reachable (ct_read t) /\ h_streams (ct_read t) ch = Some sr /\ wf_stream sr /\
+    (ct_pubs t, ct_rc t) =
+      match cache_pick lim uf filt sr with
+      | Some p => if same_position sr off ep then ([], true) else ([p], true)
+      | None => ([], same_position sr off ep)
+      end /\
+    Forall (fun q => Merge.p_filt q = filt (Merge.p_id q)) (ct_buf t).
+Proof. exact cache_decision_general. Qed.
+Print Assumptions C03_decision_general.
+
+(* A delivered publication always passes the filters; it is the newest visible
+   publication scanned by the deciding read or one that reached the PUB/SUB
+   buffer during the subscribe, and neither is newer than it. *)
+Theorem C03_at_most_newest_visible_general : forall lim uf filt hnd h ch s off ep meta race p,
+  reachable h -> h_streams h ch = Some s -> uf = true \/ (forall id, filt id = false) ->
+  In p (res_pubs (snd (sub_cache lim uf filt hnd h ch off ep meta race))) ->
+  exists t sr,
+    sub_cache_tr lim uf filt hnd h ch off ep meta race = Some t /\
+    reachable (ct_read t) /\ h_streams (ct_read t) ch = Some sr /\
+    filt (i_id p) = false /\
+    (cache_pick lim uf filt sr = Some p \/ exists q, In q (ct_buf t) /\ p = of_pub q) /\
+    (forall p', In p' (ct_pubs t) -> i_off p' <= i_off p) /\
+    (forall q, In q (ct_buf t) -> Merge.p_filt q = false -> Merge.p_off q <= i_off p).
+Proof. exact cache_delivered_general. Qed.
+Print Assumptions C03_at_most_newest_visible_general.
+
+Theorem C03_recovered_only_if_general : forall lim uf filt hnd h ch s off ep meta race,
+  reachable h -> h_streams h ch = Some s ->
+  is_recovered (snd (sub_cache lim uf filt hnd h ch off ep meta race)) = true ->
+  exists t sr,
+    sub_cache_tr lim uf filt hnd h ch off ep meta race = Some t /\
+    reachable (ct_read t) /\ h_streams (ct_read t) ch = Some sr /\
+    (s_items sr <> [] \/ same_position sr off ep = true).
+Proof. exact cache_recovered_only_if_general. Qed.
+Print Assumptions C03_recovered_only_if_general.
+
+(* Server-side Client.Subscribe in cache mode (RecoverSince or AutoCacheRecover):
+   the push announces the requested offset when a publication was picked or the
+   position is held, the top otherwise; it carries neither the recovered flag
+   nor the picked publication. *)
+Theorem C03_serverside_decision : forall lim uf filt hnd h ch s off ep meta,
+  h_streams h ch = Some s -> wf_stream s -> hnd = HNone \/ hnd = HNo ->
+  snd (srv_cache lim uf filt hnd h ch off ep meta) =
+  match cache_pick lim uf filt s with
+  | Some _ => PSub off (s_epoch s)
+  | None => if same_position s off ep then PSub off (s_epoch s) else PSub (s_top s) (s_epoch s)
+  end.
+Proof. exact srv_cache_decision. Qed.
+Print Assumptions C03_serverside_decision.
 
 Theorem C03_oracle_sound : forall off ep fl extra full recovered pubs,
   cache_ok_on off ep fl extra full recovered pubs = true <-> CacheOn off ep fl extra full recovered pubs.
